@@ -78,7 +78,9 @@ impl<R: RealNumberInternalTrait> Number<R> {
     pub(crate) fn exact_eqv(&self, other: &Self) -> bool {
         match (self, other) {
             (Number::Integer(a), Number::Integer(b)) => a.eq(b),
-            (Number::Rational(a1, b1), Number::Rational(a2, b2)) => (a1 * b2).eq(&(b1 * a2)),
+            (Number::Rational(a1, b1), Number::Rational(a2, b2)) => {
+                (*a1 as i64 * *b2 as i64).eq(&(*b1 as i64 * *a2 as i64))
+            }
             (Number::Real(a), Number::Real(b)) => a.eq(b),
             _ => false,
         }
@@ -90,7 +92,9 @@ impl<R: RealNumberInternalTrait> PartialEq for Number<R> {
     fn eq(&self, other: &Number<R>) -> bool {
         match upcast_oprands((*self, *other)) {
             NumberBinaryOperand::Integer(a, b) => a.eq(&b),
-            NumberBinaryOperand::Rational(a1, a2, b1, b2) => (a1 * b2).eq(&(b1 * a2)),
+            NumberBinaryOperand::Rational(a1, a2, b1, b2) => {
+                (a1 as i64 * b2 as i64).eq(&(b1 as i64 * a2 as i64))
+            }
             NumberBinaryOperand::Real(a, b) => a.eq(&b),
         }
     }
@@ -100,7 +104,9 @@ impl<R: RealNumberInternalTrait> PartialOrd for Number<R> {
     fn partial_cmp(&self, other: &Number<R>) -> Option<Ordering> {
         match upcast_oprands((*self, *other)) {
             NumberBinaryOperand::Integer(a, b) => a.partial_cmp(&b),
-            NumberBinaryOperand::Rational(a1, a2, b1, b2) => (a1 * b2).partial_cmp(&(b1 * a2)),
+            NumberBinaryOperand::Rational(a1, a2, b1, b2) => {
+                (a1 as i64 * b2 as i64).partial_cmp(&(b1 as i64 * a2 as i64))
+            }
             NumberBinaryOperand::Real(a, b) => a.partial_cmp(&b),
         }
     }
@@ -161,7 +167,7 @@ impl<R: RealNumberInternalTrait> std::ops::Add<Number<R>> for Number<R> {
     type Output = Number<R>;
     fn add(self, rhs: Number<R>) -> Number<R> {
         match upcast_oprands((self, rhs)) {
-            NumberBinaryOperand::Integer(a, b) => Number::Integer(a + b),
+            NumberBinaryOperand::Integer(a, b) => Number::exact_ratio(a as i128 + b as i128, 1),
             NumberBinaryOperand::Real(a, b) => Number::Real(a + b),
             NumberBinaryOperand::Rational(a1, a2, b1, b2) => {
                 let (a1, a2, b1, b2) = (a1 as i128, a2 as i128, b1 as i128, b2 as i128);
@@ -175,7 +181,7 @@ impl<R: RealNumberInternalTrait> std::ops::Sub<Number<R>> for Number<R> {
     type Output = Number<R>;
     fn sub(self, rhs: Number<R>) -> Number<R> {
         match upcast_oprands((self, rhs)) {
-            NumberBinaryOperand::Integer(a, b) => Number::Integer(a - b),
+            NumberBinaryOperand::Integer(a, b) => Number::exact_ratio(a as i128 - b as i128, 1),
             NumberBinaryOperand::Real(a, b) => Number::Real(a - b),
             NumberBinaryOperand::Rational(a1, a2, b1, b2) => {
                 let (a1, a2, b1, b2) = (a1 as i128, a2 as i128, b1 as i128, b2 as i128);
@@ -189,7 +195,7 @@ impl<R: RealNumberInternalTrait> std::ops::Mul<Number<R>> for Number<R> {
     type Output = Number<R>;
     fn mul(self, rhs: Number<R>) -> Number<R> {
         match upcast_oprands((self, rhs)) {
-            NumberBinaryOperand::Integer(a, b) => Number::Integer(a * b),
+            NumberBinaryOperand::Integer(a, b) => Number::exact_ratio(a as i128 * b as i128, 1),
             NumberBinaryOperand::Real(a, b) => Number::Real(a * b),
             NumberBinaryOperand::Rational(a1, a2, b1, b2) => {
                 Number::exact_ratio(a1 as i128 * b1 as i128, a2 as i128 * b2 as i128)
@@ -223,7 +229,7 @@ impl<R: RealNumberInternalTrait> std::ops::Div<Number<R>> for Number<R> {
 impl<R: RealNumberInternalTrait> Number<R> {
     pub fn abs(self) -> Number<R> {
         match self {
-            Number::Integer(num) => Number::Integer(num.abs()),
+            Number::Integer(num) => Number::exact_ratio((num as i128).abs(), 1),
             Number::Real(num) => Number::Real(num.abs()),
             Number::Rational(a, b) => Number::exact_ratio((a as i128).abs(), (b as i128).abs()),
         }
@@ -287,7 +293,7 @@ impl<R: RealNumberInternalTrait> Number<R> {
             Number::Real(num) => Number::Real(num.floor()),
             Number::Rational(a, b) => {
                 let (a, b) = (a as i64 * (b as i64).signum(), (b as i64).abs());
-                Number::Integer(a.div_euclid(b) as i32)
+                Number::exact_ratio(a.div_euclid(b) as i128, 1)
             }
         }
     }
@@ -298,7 +304,7 @@ impl<R: RealNumberInternalTrait> Number<R> {
             Number::Real(num) => Number::Real(num.ceil()),
             Number::Rational(a, b) => {
                 let (a, b) = (a as i64 * (b as i64).signum(), (b as i64).abs());
-                Number::Integer(-(-a).div_euclid(b) as i32)
+                Number::exact_ratio(-(-a).div_euclid(b) as i128, 1)
             }
         }
     }
